@@ -53,11 +53,18 @@ Qed.
 Lemma fmt_time_raw_ok secs : raw_ok (fmt_rfc3339_utc secs) = true.
 Proof. apply plain_raw_ok, fmt_time_plain. Qed.
 
+Lemma repeat_zero_plain k : forallb plain (repeat x30 k) = true.
+Proof. induction k; [reflexivity|]. cbn [repeat forallb]. rewrite IHk. reflexivity. Qed.
+Lemma fmt_go_seconds_plain_t r : forallb plain (fmt_go_seconds r) = true.
+Proof.
+  unfold fmt_go_seconds. destruct (go_seconds r) as [m e]. destruct (shortest64 m e) as [t q]. unfold fmt_f_shortest.
+  destruct (0 <=? q)%Z; cbv zeta; rewrite ?forallb_app, ?dp, ?dwp, ?repeat_zero_plain; reflexivity.
+Qed.
 Lemma fmt_dur_plain d b : fmt_xsd_duration d = Some b -> forallb plain b = true.
 Proof.
-  unfold fmt_xsd_duration. destruct (_ && _); [|discriminate]. intros H. inversion H. clear H H1.
+  unfold fmt_xsd_duration. intros H. inversion H. clear H H1.
   repeat match goal with |- context [if ?c then _ else _] => destruct c end;
-    cbn [app]; repeat (rewrite ?forallb_app; cbn [forallb]); rewrite ?dp; reflexivity.
+    cbn [app]; repeat (rewrite ?forallb_app; cbn [forallb]); rewrite ?dp, ?fmt_go_seconds_plain_t; reflexivity.
 Qed.
 Lemma fmt_dur_raw_ok d b : fmt_xsd_duration d = Some b -> raw_ok b = true.
 Proof. intros H. apply plain_raw_ok. exact (fmt_dur_plain d b H). Qed.
@@ -194,8 +201,8 @@ Section Wf.
       - destruct (t_struct t_run (B "PublicKey_MarshalJSON") (pubkey_fields id o' p)) as [o''|] eqn:Eo; [|discriminate].
         intros H. inversion H; subst. split; [exact (struct_wf _ _ _ Eo)|left; reflexivity]. }
     destruct (bytes_eqb writer (B "JSONWriteTimeProp")).
-    { destruct v as [[ | | | |t0| | | | | | | | ]|]; try discriminate. intros H. inversion H.
-      split; [|left; reflexivity]. cbn [owf wf_fjv]. apply fmt_time_raw_ok. }
+    { destruct v as [[ | | | |t0| | | | | | | | ]|]; try discriminate.
+      destruct (time_writable t0); intros H; inversion H; (split; [|left; reflexivity]); [|reflexivity]. cbn [owf wf_fjv]. apply fmt_time_raw_ok. }
     destruct (bytes_eqb writer (B "JSONWriteDurationProp")).
     { destruct v as [[ | | | | |d| | | | | | | ]|]; try discriminate. destruct (fmt_xsd_duration d) as [b|] eqn:Ed; [|discriminate].
       intros H. inversion H. split; [|left; reflexivity]. cbn [owf wf_fjv]. exact (fmt_dur_raw_ok _ _ Ed). }
